@@ -362,3 +362,84 @@ pub fn coverage_probes(v: &View) {
         probe("select_tie_break_drawn");
     }
 }
+
+#[derive(Clone, Debug)]
+pub struct StopReq {
+    /// when the request was issued (op begin; handler entry for Context::stop)
+    pub begin: u64,
+    /// when an accepted request had returned (None: rejected or never returned)
+    pub accepted_ret: Option<u64>,
+    pub by_client: Option<u32>,
+}
+
+impl<'a> View<'a> {
+    /// final incarnation's `stopped` callback, if it ran to completion and nothing followed it
+    pub fn final_stopped(&self, a: &ActorRun) -> Option<&CbRec> {
+        let last = a.cbs.last().map(|i| &self.cbs[*i])?;
+        if last.cb == Cb::Stopped && last.exit.is_some() { Some(last) } else { None }
+    }
+    /// graceful termination: the task completed, `stopped` was the last callback and ran to its
+    /// end, and no `started` reported an error
+    pub fn graceful(&self, a: &ActorRun) -> bool {
+        a.how == Some(HOW_COMPLETED)
+            && self.final_stopped(a).is_some()
+            && !self.cbs_of(a).any(|c| c.cb == Cb::Started && c.exit.is_some() && !c.ok)
+    }
+    /// did the harness inject anything into this actor that makes a failed termination legitimate?
+    pub fn fault_injected(&self, a: &ActorRun) -> bool {
+        let aidx = a.aidx;
+        if a.cancel_requested.is_some() || matches!(a.how, Some(HOW_PANICKED) | Some(HOW_CANCELLED)) {
+            return true;
+        }
+        if self.out.log.iter().any(|r| matches!(&r.ev, Ev::FaultFired { actor, .. } if Some(*actor) == aidx)) {
+            return true;
+        }
+        if let Some(ai) = aidx {
+            let spec = self.sc.spec_of(ai);
+            if spec.fail_on_timeout && spec.timeout.is_some() && self.handler_cbs_of(a).any(|c| c.exit.is_none()) {
+                return true;
+            }
+        }
+        false
+    }
+    /// all stop requests addressed to scenario actor `aidx`, through any entry point
+    pub fn stop_requests(&self, aidx: ActorIdx) -> Vec<StopReq> {
+        let mut v = vec![];
+        for o in &self.ops {
+            if o.target != Some(aidx) || o.skipped() {
+                continue;
+            }
+            match o.inner {
+                Op::Stop { .. } | Op::TryStop { .. } => v.push(StopReq {
+                    begin: o.begin,
+                    accepted_ret: if matches!(o.res, Some(Res::Ok)) { o.end } else { None },
+                    by_client: Some(o.client),
+                }),
+                Op::Halt { .. } | Op::TryHalt { .. } | Op::Consume { .. } | Op::ConsumeSync { .. } => v.push(StopReq {
+                    begin: o.begin,
+                    // the stop inside was accepted iff the whole op did not fail early; be
+                    // conservative: acceptance is only known once the op returned Ok
+                    accepted_ret: if o.ok() { o.end } else { None },
+                    by_client: Some(o.client),
+                }),
+                _ => {}
+            }
+        }
+        for r in &self.out.log {
+            if let Ev::CtxRes { aidx: a, what: CtxOp::Stop, ok, id, inst } = &r.ev {
+                if *a == aidx {
+                    let begin = self
+                        .cbs
+                        .iter()
+                        .rev()
+                        .find(|c| c.inst == *inst && c.id == *id && c.enter < r.st.seq)
+                        .map(|c| c.enter)
+                        .unwrap_or(r.st.seq);
+                    v.push(StopReq { begin, accepted_ret: if *ok { Some(r.st.seq) } else { None }, by_client: None });
+                }
+            }
+        }
+        v.sort_by_key(|s| s.begin);
+        v
+    }
+}
